@@ -939,6 +939,10 @@ func encoderLevelFromZstd(level CompressionLevel) zstd.EncoderLevel {
 
 // NewWriter returns a new MCAP writer.
 func NewWriter(w io.Writer, opts *WriterOptions) (*Writer, error) {
+	// The defaults filled in below belong to this writer. The caller's options may be shared
+	// with other writers, possibly on other goroutines, so they are not written to.
+	o := *opts
+	opts = &o
 	writer := newWriteSizer(w, opts.IncludeCRC)
 	if !opts.SkipMagic {
 		if _, err := writer.Write(Magic); err != nil {
